@@ -38,4 +38,43 @@ theorem attrs_roundtrip (chk : Chk K) (fixed : Bool) (h : Grid K) (v : Vert K)
       fromAttrs, look, gridFromAttrs, getInt, vertFromAttrs, Grid.discretisation, hm, hv]
 
 #print axioms attrs_roundtrip
+
+/-- ROUND TRIP THROUGH NetCDF ATTRIBUTES (a one-element list comes back as a scalar), repaired code
+(`fixed = true`): still the same discretisation, for every grid and every accepted vertical coordinate,
+including a single pressure level.  `hsig`: no number is close to both 0 and 1 (true of `np.isclose`). -/
+theorem attrs_roundtrip_netcdf (chk : Chk K) (h : Grid K) (v : Vert K)
+    (hsig : ∀ x, ¬ (chk.close0 x = true ∧ chk.close1 x = true))
+    (hh : h.valid = true) (hv : v.valid chk = true) :
+    ((CS.asdict { h, v := some v }).map nc) >>= fromAttrs chk true
+      = .ok { h := h.discretisation, v := some v } := by
+  have hm : h.spacing ∈ spacings := by simpa [Grid.valid] using hh
+  cases v with
+  | sigma b =>
+    simp only [Vert.valid] at hv
+    match b, hv with
+    | [], hv => simp at hv
+    | [x], hv => exact absurd (by simpa [increasing] using hv) (hsig x)
+    | x :: y :: r, hv =>
+      simp [CS.asdict, keys, Grid.asdict, Vert.asdict, merge, Attrs.set, Vert.typeName, bind, Except.bind,
+        Except.map, nc, ncVal, fromAttrs, look, gridFromAttrs, getInt, vertFromAttrs, Grid.discretisation, hm]
+      split at hv <;> simp_all
+  | layer n =>
+    simp [CS.asdict, keys, Grid.asdict, Vert.asdict, merge, Attrs.set, Vert.typeName, bind, Except.bind,
+      Except.map, nc, ncVal, fromAttrs, look, gridFromAttrs, getInt, vertFromAttrs, Grid.discretisation, hm]
+  | pressure c =>
+    simp only [Vert.valid] at hv
+    match c, hv with
+    | [], hv | [x], hv | x :: y :: r, hv =>
+      simp [CS.asdict, keys, Grid.asdict, Vert.asdict, merge, Attrs.set, Vert.typeName, bind, Except.bind,
+        Except.map, nc, ncVal, fromAttrs, look, gridFromAttrs, getInt, vertFromAttrs, Grid.discretisation, hm, hv]
+
+/-- NEGATIVE WITNESS for the code before repository commit 55ef2a8 (`fixed = false`): a single pressure level
+does not survive the NetCDF round trip, for every grid and every level value. -/
+theorem old_attrs_netcdf_single_pressure_level_fails (chk : Chk K) (h : Grid K) (x : K) (hh : h.valid = true) :
+    ((CS.asdict { h, v := some (.pressure [x]) }).map nc) >>= fromAttrs chk false = .error .valueError := by
+  have hm : h.spacing ∈ spacings := by simpa [Grid.valid] using hh
+  simp [CS.asdict, keys, Grid.asdict, Vert.asdict, merge, Attrs.set, Vert.typeName, bind, Except.bind,
+    Except.map, nc, ncVal, fromAttrs, look, gridFromAttrs, getInt, vertFromAttrs, hm]
+
+#print axioms attrs_roundtrip_netcdf
 end Dino.C19
